@@ -42,6 +42,7 @@ ASSUMPTIONS = ['both sides load the file with tdda\'s load_df, as the '
                'invisible here']
 
 KINDS = ['int64', 'float64', 'bool', 'string', 'dt64ns']
+STEMS = ['data', 'data', 'readings.2024', 'data.v2', 'a.b.c']
 
 
 @st.composite
@@ -78,6 +79,9 @@ def file_frame(draw):
         if kind in ('float64', 'string') and all(v is None for v in cells):
             cells[0] = 1.5 if kind == 'float64' else 'a'
         cols.append({'name': 'c%d' % i, 'kind': kind, 'cells': cells})
+    if ncols >= 3 and draw(st.integers(0, 3)) == 0:
+        # a column whose name holds a comma, made of two other columns' names
+        cols[-1]['name'] = 'c0,c1'
     return {'n': n, 'cols': cols}
 
 
@@ -147,7 +151,7 @@ def valid(case):
         if fr['n'] < 1:
             return False
         for c in fr['cols']:
-            if not re.match(r'^c\d$', c['name']):
+            if not re.match(r'^c\d(,c\d)?$', c['name']):
                 return False
             if c['kind'] in ('float64', 'string') and all(
                     v is None for v in c['cells']):
@@ -274,7 +278,13 @@ def run(case, ctx):
     d = ctx.fresh_dir()
     os.chdir(d)
     fmt = case['fmt']
-    data = os.path.join(d, 'data.' + fmt)
+    # the data file's name may hold more dots than the one before its
+    # extension; a same-named .tdda beside it is the default constraints
+    stem = STEMS[(case['frame']['n'] + len(case['frame']['cols'])) % len(
+        STEMS)]
+    if stem != 'data':
+        out.label('dotted-file-name')
+    data = os.path.join(d, stem + '.' + fmt)
     df0 = build(case['frame'])
     write_table(df0, data)
     cmd = case['cmd']
@@ -454,8 +464,14 @@ def run(case, ctx):
     if not ok2 or cons is None:
         out.label('no-constraints-discovered')
         return out
-    cpath = os.path.join(d, 'data.tdda' if case['implied_constraints']
+    cpath = os.path.join(d, (stem + '.tdda') if case['implied_constraints']
                          else 'cons.tdda')
+    if case['implied_constraints'] and '.' in stem:
+        # a decoy under the shorter name: constraints nothing satisfies
+        with open(os.path.join(d, stem.split('.')[0] + '.tdda'), 'w') as f:
+            f.write('{"fields": {"%s": {"type": "date", "max_nulls": 0, '
+                    '"max": "1900-01-01"}}}' % case['frame']['cols'][0][
+                        'name'])
     with open(cpath, 'w', encoding='utf-8') as f:
         f.write(cons.to_json())
     flags = []
